@@ -100,9 +100,32 @@ def triples_task(rows, T):
     return st
 
 
-def nearest_checks(S, st):
-    import hszinc as hs
+def nearest_order_task(S, order, seed):
+    """nearest() over all of S in one call order, in a worker whose module state is fresh."""
+    st = Stats()
     ordered = sorted(S, key=refversion.key)
+    if order == 'descending':
+        ordered.reverse()
+    elif order == 'shuffled':
+        seeded_rng(seed, 'nearest').shuffle(ordered)
+    nearest_checks(S, st, ordered)
+    import hszinc as hs
+    import warnings
+    res = {}
+    with warnings.catch_warnings():
+        warnings.simplefilter('ignore')
+        for v in ordered:
+            try:
+                res[v] = str(hs.Version.nearest(v))
+            except Exception as e:  # noqa
+                res[v] = 'raised ' + type(e).__name__
+    return st, order, res
+
+
+def nearest_checks(S, st, ordered=None):
+    import hszinc as hs
+    ordered = ordered if ordered is not None else sorted(S, key=refversion.key)
+    monotone = ordered == sorted(S, key=refversion.key)
     prev = None
     for v in ordered:
         st.count('executions')
@@ -121,7 +144,7 @@ def nearest_checks(S, st):
             continue
         if not refversion.nearest_ok(v, canon[0]):
             st.fail('nearest-ignores-equal-official', {}, {'kind': 'nearest', 'v': v}, {'observed': ns})
-        if prev is not None and refversion.cmp(prev[1], canon[0]) > 0:
+        if monotone and prev is not None and refversion.cmp(prev[1], canon[0]) > 0:
             st.fail('nearest-not-monotone', {}, {'kind': 'nearest2', 'u': prev[0], 'v': v},
                     {'expr': 'nearest(%r)=%s > nearest(%r)=%s' % (prev[0], prev[1], v, canon[0])})
         prev = (v, canon[0])
@@ -171,12 +194,20 @@ def run(ctx):
     rng.shuffle(trows)
     for part in pmap(triples_task, [(c, T) for c in chunks(trows, ctx.jobs * 4)], ctx.jobs):
         st.merge(part)
+    results = {}
+    for part, order, res in pmap(nearest_order_task, [(S, o, ctx.seed) for o in ('descending', 'shuffled', 'ascending')], ctx.jobs):
+        st.merge(part)
+        results[order] = res
+    for v in S:
+        answers = set(refversion.key(r[v]) if not r[v].startswith('raised') else r[v] for r in results.values())
+        if len(answers) > 1:
+            st.fail('nearest-depends-on-call-history', {}, {'kind': 'nearest-order', 'v': v}, {o: r[v] for o, r in results.items()})
     nearest_checks(S, st)
     cache_checks(st)
     pairs, triples = Product(S, S), Product(T, T, T)
     ps, pt = pairs.tree_size()
     ts, tt = triples.tree_size()
-    if st.c.get('executions', 0) < pairs.leaves() + triples.leaves():
+    if st.c.get('executions', 0) < pairs.leaves() + triples.leaves():  # noqa
         raise HarnessError('enumeration incomplete')
     st.c['states'] = ps + ts + len(S)
     st.c['transitions'] = pt + tt + len(S)
@@ -198,6 +229,11 @@ def replay(case, st):
         check_pair(hs, case['a'], case['b'], st)
     elif k == 'triple':
         st.merge(triples_task([case['a']], [case['a'], case['b'], case['c']]))
+    elif k == 'nearest-order':
+        sub = Stats()
+        for o in ('descending', 'ascending'):
+            part, _, res = nearest_order_task(alphabet(), o, 0)
+            st.merge(part)
     elif k in ('nearest', 'nearest2'):
         nearest_checks([case.get('u', case['v']), case['v']], st)
     else:
